@@ -60,6 +60,7 @@ func init() {
 			{ID: "C07-R35", Title: "what holds loaded code is forgotten with it (shared with C14-R28)", Floor: 1, Run: whatHoldsLoadedCodeIsForgottenWithIt},
 			{ID: "C07-R36", Title: "an option of the VM sets its field whatever the value is (shared with C14-R26)", Floor: 3, Run: vmOptionsSetWhatTheyAreGiven},
 			{ID: "C07-R37", Title: "a Config is applied to the VM as a whole (shared with C11-R24)", Floor: 3, Run: theConfigurationIsAppliedAsAWhole},
+			{ID: "C07-R38", Title: "an evaluation closes only the files it opened (shared with C09-R16)", Floor: 1, Run: evaluationsCloseOnlyWhatTheyOpened},
 		},
 	})
 }
